@@ -2,6 +2,8 @@
    are sized for.  Statements only; proofs in QTools/AccThm.v. *)
 From Coq Require Import ZArith List Bool.
 From QV Require Import Base.ZQ Base.FL QTools.Types QTools.Ops QTools.MulThm QTools.AccThm.
+From QVGen Require Import QToolsOps.
+From QV Require Import Link.QToolsLink.
 Open Scope Z_scope.
 Import ListNotations.
 
@@ -82,3 +84,24 @@ Example C17_nonvacuous :
   let a := fixed_acc 27 true m in
   render a = [0; 15; 7; 1; 0; 0; -1; 1; 0] /\ code_ok m (-512) /\ code_ok a (27 * -512) /\ ~ code_ok m (27 * -512).
 Proof. vm_compute. repeat split; try discriminate. intros [H _]. apply H. reflexivity. Qed.
+
+(* ---- tie to the source (T): the accumulator / adder rules regenerated from accumulator_impl.py, adder_impl.py and
+   adder_factory.py on this run are, for all operands, the model the theorems above are about ---- *)
+Theorem C17_source_translated : translation_ok = true.
+Proof. exact link_translation_ok. Qed.
+Print Assumptions C17_source_translated.
+Theorem C17_source_adder_table : forall m1 m2, 0 <= m1 <= 5 -> 0 <= m2 <= 5 ->
+  nth (Z.to_nat m2) (nth (Z.to_nat m1) gen_add_table []) AFloat = add_table m1 m2.
+Proof. exact link_add_table. Qed.
+Print Assumptions C17_source_adder_table.
+Theorem C17_source_rules_are_the_model : forall kernel_ops use_bias m q1 q2,
+  gen_FixedPointAccumulator kernel_ops use_bias m = fixed_acc kernel_ops use_bias m /\
+  gen_Po2Accumulator kernel_ops use_bias m = po2_acc kernel_ops use_bias m /\
+  gen_FloatingPointAccumulator m = float_acc m /\
+  gen_po2_to_qbits m = po2_to_qbits m /\ gen_po2_qbits_converter m = po2_qbits_converter m /\
+  gen_FixedPointAdder q1 q2 = fixed_adder q1 q2 /\ gen_Po2FixedPointAdder q1 q2 = po2_fixed_adder q1 q2 /\
+  gen_Po2Adder q1 q2 = po2_adder q1 q2 /\ gen_FloatingPointAdder q1 q2 = float_adder q1 q2.
+Proof. intros. repeat split; first [apply link_FixedPointAccumulator | apply link_Po2Accumulator | apply link_FloatingPointAccumulator
+                                   | apply link_po2_to_qbits | apply link_po2_qbits_converter | apply link_FixedPointAdder
+                                   | apply link_Po2FixedPointAdder | apply link_Po2Adder | apply link_FloatingPointAdder]. Qed.
+Print Assumptions C17_source_rules_are_the_model.
